@@ -24,7 +24,7 @@ ASSUMPTIONS = [
     'family (vlib/corpus) and body-malformed ones, which this agent tolerates (C10)',
 ]
 EXHAUSTIVE = {'quick': False, 'thorough': False}
-HOLDS = [0, 3, 4, 9, 30, 90, 180, 65535]
+HOLDS = [0, 3, 4, 5, 8, 9, 20, 30, 90, 180, 65534, 65535]      # all three residues mod 3 (H/3 is not always a whole number)
 TOL = 1e-6
 
 
@@ -265,7 +265,7 @@ arrival = st.tuples(st.sampled_from(GAPS + ['H-e', 'H', '2H/3', 'H/2']),
                     st.one_of(st.sampled_from(['K', 'U', 'UM', 'K+S', 'U+S']), st.integers(0, NBODIES - 1).map(lambda k: 'U:%d' % k)),
                     st.sampled_from(['msg', 'timer'])).map(list)
 case_strategy = st.fixed_dictionaries({
-    'conf': st.sampled_from(HOLDS), 'prop': st.sampled_from(HOLDS), 'conf_ka': st.sampled_from([60, 60, 1, 7, 600]),
+    'conf': st.one_of(st.sampled_from(HOLDS), st.integers(3, 400)), 'prop': st.one_of(st.sampled_from(HOLDS), st.integers(3, 400)), 'conf_ka': st.sampled_from([60, 60, 1, 7, 600]),
     'ka_delay': st.sampled_from(['0', '0', 'small', 'H/3', 'H/2', '2H/3', 'H-e']),
     'phase': st.sampled_from(['est', 'est', 'est', 'est', 'opensent', 'openconfirm']),
     'eps': st.sampled_from([0.001, 1.0]),
